@@ -735,3 +735,53 @@ func lastPart(path string) string {
 	}
 	return path
 }
+
+// decorateIniNames gives some options an ini-name: mostly harmless ones, now and then one that collides - with another
+// option's ini-name (also in other letter case), field name, long name or short name.  The reader prefers ini-name over
+// field name over long name over short name and, among equals, the first in traversal order.
+func decorateIniNames(r *rand.Rand, t *Tree) {
+	Flatten(t)
+	var all []*OptNode
+	var walkG func(g *GroupNode)
+	walkG = func(g *GroupNode) {
+		all = append(all, g.Opts...)
+		for _, sg := range g.Groups {
+			walkG(sg)
+		}
+	}
+	var walkC func(c *CmdNode)
+	walkC = func(c *CmdNode) {
+		if c.Own != nil {
+			walkG(c.Own)
+		}
+		for _, g := range c.Extra {
+			walkG(g)
+		}
+		for _, sc := range c.Cmds {
+			walkC(sc)
+		}
+	}
+	walkC(t.Root)
+	for _, o := range all {
+		if o.Kind == "func0" || o.Kind == "func1" || !chance(r, 0.2) {
+			continue
+		}
+		other := pick(r, all)
+		switch r.Intn(6) {
+		case 0:
+			o.IniName = pick(r, []string{"Custom", "custom", "MiXed", "mixed", "k"})
+		case 1:
+			o.IniName = other.field
+		case 2:
+			if other.Long != "" {
+				o.IniName = other.Long
+			}
+		case 3:
+			if other.Short != "" {
+				o.IniName = other.Short
+			}
+		default:
+			o.IniName = "ini-" + o.field
+		}
+	}
+}
